@@ -844,6 +844,14 @@ pub fn judge_c08(info: &Info, log: &RunLog, rep: &mut Report) {
             rounds.last_mut().unwrap().push(i);
         }
     }
+    // a request list is computed when a round starts and then leaves at one PDU per ms: every PDU of a
+    // round is as old as the round's first PDU
+    let mut round_start_of: std::collections::HashMap<usize, u64> = std::collections::HashMap::new();
+    for r in &rounds {
+        for i in r {
+            round_start_of.insert(naks[*i].0, naks[r[0]].1);
+        }
+    }
     if let Some((eof_idx, eof_t)) = eof_arrival {
         let mut marks: Vec<(usize, u64)> = vec![(eof_idx, eof_t)];
         for a in arr.iter().filter(|a| a.1 >= eof_t && a.0 != eof_idx && matches!(a.2, Kind::FileData | Kind::Metadata)) {
@@ -876,7 +884,7 @@ pub fn judge_c08(info: &Info, log: &RunLog, rep: &mut Report) {
                         }
                         for x in (q.start_offset as usize).min(size)..(q.end_offset as usize).min(size) {
                             asked[x] = true;
-                            if n.1 > m.1 + 5_000 {
+                            if round_start_of.get(&n.0).cloned().unwrap_or(0) > m.1 + 5_000 {
                                 asked_late[x] = true;
                             }
                         }
